@@ -503,6 +503,54 @@ class _Goto(Exception):
 # ---------------------------------------------------------------------------
 # program database
 # ---------------------------------------------------------------------------
+_FILE_RE = re.compile(r'"file": "([^"]*)"')
+_INCL_RE = re.compile(r'"includedFrom": \{[^}]*\}')
+
+
+def prune_ast_text(txt):
+    """Drop function definitions that live in system headers (the x86 intrinsic
+    headers alone are 170 MB of JSON) from clang's pretty-printed AST dump.  The
+    dump is cut at its top-level declarations (lines '    {' ... '    }'); a
+    declaration's file is the last "file" key printed so far (clang omits the
+    key when the file does not change).  Types, records, enums and variables
+    are kept wherever they come from."""
+    lines = txt.split("\n")
+    out = []
+    cur_file = ""
+    i = 0
+    n = len(lines)
+    # header up to and including '"inner": ['
+    while i < n and lines[i] != "    {":
+        out.append(lines[i])
+        i += 1
+    kept = []
+    while i < n and lines[i] == "    {":
+        j = i + 1
+        while j < n and lines[j] not in ("    },", "    }"):
+            j += 1
+        chunk = lines[i:j + 1]
+        text = "\n".join(chunk)
+        head = text[:text.find('"range"')] if '"range"' in text else text[:600]
+        mh = _FILE_RE.findall(_INCL_RE.sub("", head))
+        decl_file = mh[0] if mh else cur_file
+        allf = _FILE_RE.findall(_INCL_RE.sub("", text))
+        if allf:
+            cur_file = allf[-1]
+        system = decl_file.startswith(("/usr/", "/lib/", "/opt/")) or "/lib/clang/" in decl_file
+        is_func = '"kind": "FunctionDecl"' in head
+        if not (system and is_func):
+            if chunk[-1] == "    }":
+                chunk = chunk[:-1] + ["    },"]
+            kept.append("\n".join(chunk))
+        i = j + 1
+    if kept:
+        kept[-1] = kept[-1][:-1] if kept[-1].endswith("},") else kept[-1]
+    out.append("\n".join(kept))
+    out.extend(lines[i:])
+    return "\n".join(out)
+
+
+
 class CProgram(object):
     """Lazily loaded ASTs of the repository's translation units."""
 
@@ -515,9 +563,9 @@ class CProgram(object):
         t = self.cdb.tu(src)
         key = (t.ext, t.src)
         if key not in self._tu:
-            name = "tuast_%s_%s.json" % (t.ext.split(".")[-1], os.path.basename(t.src))
-            txt = self.cdb._cached(name, lambda: self.cdb._clang(
-                ["-Xclang", "-ast-dump=json", "-fsyntax-only", "-Wno-everything"], t))
+            name = "tuastp_%s_%s.json" % (t.ext.split(".")[-1], os.path.basename(t.src))
+            txt = self.cdb._cached(name, lambda: prune_ast_text(self.cdb._clang(
+                ["-Xclang", "-ast-dump=json", "-fsyntax-only", "-Wno-everything"], t)))
             self._tu[key] = TUInfo(json.loads(txt))
         return self._tu[key]
 
@@ -571,7 +619,8 @@ class Machine(object):
                 what, n, "NULL" if p.off == 0 else "the integer %d" % p.off), self.line)
         o = self.objs.get(p.obj)
         if o is None:
-            raise Undecided("dangling object id")
+            raise CError("use-after-return", "%s of %d bytes through a pointer to a local variable of a function that "
+                         "has returned" % (what, n), self.line)
         if o.freed:
             raise CError("use-after-free", "%s of %d bytes in freed %s" % (what, n, o.name), self.line)
         if p.off < 0 or p.off + n > o.size:
@@ -787,7 +836,7 @@ class Machine(object):
                 fd = other.funcs[name]
             else:
                 raise Undecided("no body and no model for %s()" % name)
-        elif b is not None and name in ("memcpy", "memset", "memcmp", "memmove"):
+        elif b is not None and (name in ("memcpy", "memset", "memcmp", "memmove") or name.startswith("_mm_")):
             return b(self, args)
         return self.run_decl(fd, args, tu)
 
@@ -825,7 +874,7 @@ class Machine(object):
             for (p, t) in fr.values():
                 o = self.objs.get(p.obj)
                 if o is not None and o.kind in ("local", "param"):
-                    o.freed = True
+                    del self.objs[p.obj]
             self.frames.pop()
             self.depth -= 1
             self.line = saved_line
@@ -1607,7 +1656,77 @@ def _b_noop(m, a):
     return 0
 
 
+def _vec(cells):
+    return Agg(list(cells))
+
+
+def _vcells(v):
+    if isinstance(v, Agg) and len(v.cells) == 16:
+        return v.cells
+    raise Undecided("not a 128-bit vector: %r" % (v,))
+
+
+def _band(x, y):
+    if x is None or y is None:
+        return None
+    if isinstance(x, int) and isinstance(y, int):
+        return x & y
+    if isinstance(y, int):
+        x, y = y, x
+    if isinstance(x, int) and x in (0, 0xFF):
+        return y if x else 0
+    if x is y:
+        return x
+    return None
+
+
+def _bor(x, y):
+    if x is None or y is None:
+        return None
+    if isinstance(x, int) and isinstance(y, int):
+        return x | y
+    if isinstance(y, int):
+        x, y = y, x
+    if isinstance(x, int) and x in (0, 0xFF):
+        return 0xFF if x else y
+    if x is y:
+        return x
+    return None
+
+
+def _bnot(x):
+    return None if x is None else bxor(x, 0xFF)
+
+
+def _mm_set1_epi64x(m, a):
+    c = to_bytes_le(a[0], 8)
+    return _vec(c + c)
+
+
+def _mm_loadu(m, a):
+    return _vec(m.read_cells(a[0], 16))
+
+
+def _mm_storeu(m, a):
+    m.write_cells(a[0], list(_vcells(a[1])))
+    return None
+
+
+def _mm_loadl(m, a):
+    return _vec(m.read_cells(a[0], 8) + [0] * 8)
+
+
 BUILTINS = {
+    "_mm_set1_epi64x": _mm_set1_epi64x,
+    "_mm_loadu_si128": _mm_loadu, "_mm_load_si128": _mm_loadu, "_mm_lddqu_si128": _mm_loadu,
+    "_mm_storeu_si128": _mm_storeu, "_mm_store_si128": _mm_storeu,
+    "_mm_loadl_epi64": _mm_loadl,
+    "_mm_setzero_si128": lambda m, a: _vec([0] * 16),
+    "_mm_unpacklo_epi64": lambda m, a: _vec(_vcells(a[0])[:8] + _vcells(a[1])[:8]),
+    "_mm_and_si128": lambda m, a: _vec([_band(x, y) for x, y in zip(_vcells(a[0]), _vcells(a[1]))]),
+    "_mm_andnot_si128": lambda m, a: _vec([_band(_bnot(x), y) for x, y in zip(_vcells(a[0]), _vcells(a[1]))]),
+    "_mm_or_si128": lambda m, a: _vec([_bor(x, y) for x, y in zip(_vcells(a[0]), _vcells(a[1]))]),
+    "_mm_xor_si128": lambda m, a: _vec([bxor(x, y) for x, y in zip(_vcells(a[0]), _vcells(a[1]))]),
     "memcpy": _b_memcpy, "__builtin_memcpy": _b_memcpy, "__builtin___memcpy_chk": _b_memcpy,
     "memmove": _b_memmove, "__builtin_memmove": _b_memmove, "__builtin___memmove_chk": _b_memmove,
     "memset": _b_memset, "__builtin_memset": _b_memset, "__builtin___memset_chk": _b_memset,
@@ -1619,3 +1738,59 @@ BUILTINS = {
     "__builtin_expect": lambda m, a: a[0],
     "__builtin_object_size": lambda m, a: (1 << 64) - 1,
 }
+
+
+# ---------------------------------------------------------------------------
+# sharded execution of row tables (16 cores)
+# ---------------------------------------------------------------------------
+class Shard(object):
+    """Row filter: take() is called once per row, true for this shard's rows."""
+
+    def __init__(self, i=0, n=1):
+        self.i = i
+        self.n = n
+        self.k = -1
+
+    def take(self):
+        self.k += 1
+        return self.k % self.n == self.i
+
+
+_PROGS = {}
+
+
+def _shard_worker(arg):
+    root, modname, fname, i, n = arg
+    import importlib
+    from .cdb import CDB
+    if root not in _PROGS:
+        _PROGS[root] = CProgram(CDB(root))
+    fn = getattr(importlib.import_module(modname), fname)
+    try:
+        cnt, wrong = fn(_PROGS[root], Shard(i, n))
+        return (cnt, wrong, None)
+    except CError as e:
+        return (0, ["%s (line %s)" % (e, e.line)], None)
+    except Undecided as e:
+        return (0, [], str(e))
+
+
+def run_sharded(root, prog, modname, fnames, shards=8):
+    """Run table functions fn(prog, shard) -> (rows, wrong) split over processes.
+    Returns {fname: (rows, wrong, undecided or None)}."""
+    import concurrent.futures
+    import os as _os
+    # make sure the ASTs are cached on disk before forking workers
+    jobs = [(root, modname, f, i, shards) for f in fnames for i in range(shards)]
+    out = dict((f, [0, [], None]) for f in fnames)
+    if (_os.cpu_count() or 1) < 2 or _os.environ.get("VSTAT_SERIAL"):
+        res = [_shard_worker(j) for j in jobs]
+    else:
+        with concurrent.futures.ProcessPoolExecutor(min(16, len(jobs))) as ex:
+            res = list(ex.map(_shard_worker, jobs))
+    for j, (cnt, wrong, und) in zip(jobs, res):
+        o = out[j[2]]
+        o[0] += cnt
+        o[1].extend(wrong)
+        o[2] = o[2] or und
+    return out
